@@ -31,7 +31,7 @@ def run(ctx):
     n = 300 if ctx.tier == "quick" else 5000
     core.generic_corr(ctx, overlay=ov, pkg="internal/auth/pass_table", run="TestVerif_C14", n=n,
                       corr_module="Auth.Corr", clause_names=CLAUSES, name="history", shard=150)
-    n2 = 60 if ctx.tier == "quick" else 600
+    n2 = 120 if ctx.tier == "quick" else 2000
     core.generic_corr(ctx, overlay=ov, pkg="internal/endpoint/smtp", run="TestVerif_C14Sess", n=n2,
                       corr_module="Auth.Corr", clause_names=CLAUSES, name="session", shard=300)
     ctx.coverage["rule"] = ("history stream: histories of 1-12 operations (an authentication is issued as pass_table.AuthPlain, a PLAIN "
